@@ -164,7 +164,7 @@ Definition bounded_is_ident (b : bounded) (name : string) : bool :=
 
 (** [remove_generic_type_params] + [tidy_generics] *)
 Definition convert_generics (deps : fn_deps) (g : generics) : generics :=
-  let params := filter (fun p => match gp_kind p with GType => false | _ => true end) (p_items (g_params g)) in
+  let params := filter is_life (p_items (g_params g)) in
   let keep (w : wpred) : bool :=
     match deps with
     | DGeneric (Some name) _ => if wp_is_type w then negb (bounded_is_ident (wp_bounded w) name) else true
